@@ -170,33 +170,20 @@ def check(model, rep, tier):
               'the %s is not recorded in %s on every path' % (what, missing),
               {'required_sets': sets}, line=h.node.lineno,
               witness='a %s whose name is later used by generated code' % what)
-  va = cls.methods.get('visit_arg')
-  g = pycfg.CFG(va.node)
-  adds = _adds(va.node, 'bound')
-  add_nodes = [i for i in range(len(g.nodes)) if any(
-      c in adds for c in pycfg.calls_at(g, i))]
-  w = {i: 1 for i in add_nodes}
-  bad = []
-  allowed = {('not anno.hasanno(node, anno.Basic.QN)', 'T'),
-             ('self._track_annotations_only', 'T')}
-  for ri in g.nodes_where(lambda k, a: k == 'return'):
-    rng = g.count_range(w, ends={ri}, skip_labels=())
-    if rng and rng[0] == 0:
-      mand = [(core.norm(g.nodes[t][1]), l) for t, l in g.mandatory_edges(ri)]
-      if not mand or not set(mand) & allowed or not set(mand) <= allowed | {
-          ('self._track_annotations_only', 'F')}:
-        bad.append(mand)
-  mp = [c for c in ast.walk(va.node) if isinstance(c, ast.Call) and
-        core.norm(c.func) == 'self.scope.mark_param']
-  rep.check(not bad and len(mp) == 1 and len(add_nodes) == 1, 'BIND-EXH',
+  from sa import formula as _fm
+  va, vc = rules_trav.visit_arg_conditions(model)
+  A, Q = _fm.atom('ANNOT'), _fm.atom('HASQN')
+  want = ~A & Q
+  okb = vc['bound'] is not None and vc['n_bound'] == 1 and _fm.implies(want, vc['bound'])[0]
+  okp = vc['param'] is not None and _fm.implies(want, vc['param'])[0]
+  rep.check(okb and okp, 'BIND-EXH',
             '%s:ActivityAnalyzer:visit_arg' % ACT,
             'in the declaration pass a parameter must be recorded as bound and '
-            'marked as parameter on every path', {'paths_without_binding': bad},
+            'marked as parameter on every path',
+            {'bound_under': str(vc['bound']), 'marked_under': str(vc['param'])},
             line=va.node.lineno, witness='def f(k): ...')
-  leak = True
-  if add_nodes:
-    mand = [(core.norm(g.nodes[t][1]), l) for t, l in g.mandatory_edges(add_nodes[0])]
-    leak = ('self._track_annotations_only', 'F') not in mand
+  leak = vc['bound'] is None or _fm.satisfiable(vc['bound'] & A) or (
+      vc['param'] is not None and _fm.satisfiable(vc['param'] & A))
   rep.check(not leak, 'BIND-EXH', '%s:ActivityAnalyzer:visit_arg:not-in-defining-scope' % ACT,
             'the annotations pass runs in the scope that *defines* the function: '
             'recording the parameter there makes a nested function\'s '
@@ -247,27 +234,55 @@ def check(model, rep, tier):
   qv, qb = pat.first(ts.node, '_Q_ = anno.getanno(%s, anno.Basic.QN)' % ts.params()[0])
   qn = qb['_Q_'] if qb else 'qn'
 
-  def sets_in(body):
+  # where each `self.scope.<set>.add(qn)` happens, as a formula over the context
+  # kind, the AugAssign flag and "inside a comprehension"
+  from sa import formula as _fm2
+  p_ts = ts.params()[0]
+
+  def ctx_atom(e):
+    t = core.norm(e)
+    if t.startswith('isinstance(%s.ctx, ast.' % p_ts):
+      return 'CTX_' + t.split('ast.')[-1].rstrip(')')
+    if t == 'self._in_aug_assign':
+      return 'AUG'
+    if '_Comprehension' in t and '.level' in t and isinstance(e, ast.Compare) and \
+        len(e.ops) == 1 and isinstance(e.comparators[0], ast.Constant) and \
+        e.comparators[0].value == 0:
+      # `level > 0` reaches here as `level <= 0` (formula.py canonicalises)
+      return ~_fm2.atom('COMP') if isinstance(e.ops[0], ast.LtE) else None
+    return None
+  reach = _fm2.condition_formula(ts.node, chain[0].test, ctx_atom)
+  adds_by_set = {}
+  for c in ast.walk(ts.node):
+    if isinstance(c, ast.Call) and isinstance(c.func, ast.Attribute) and \
+        c.func.attr == 'add' and core.norm(c.func.value).startswith('self.scope.') and \
+        c.args and core.norm(c.args[0]) == qn:
+      adds_by_set.setdefault(core.norm(c.func.value).split('.')[2], []).append(
+          _fm2.condition_formula(ts.node, c, ctx_atom))
+
+  def sets_in(kind):
+    only = _fm2.atom('CTX_' + kind)
+    for o in ('Store', 'Load', 'Del'):
+      if o != kind:
+        only = only & ~_fm2.atom('CTX_' + o)
+    base = reach & only & ~_fm2.atom('COMP')
     uncond, aug = set(), set()
-    for s in body:
-      if isinstance(s, ast.Expr) and isinstance(s.value, ast.Call):
-        f = core.norm(s.value.func)
-        if f.startswith('self.scope.') and f.endswith('.add') and \
-            core.norm(s.value.args[0]) == qn:
-          uncond.add(f.split('.')[2])
-      if isinstance(s, ast.If) and core.norm(s.test) == 'self._in_aug_assign':
-        for x in s.body:
-          if isinstance(x, ast.Expr) and isinstance(x.value, ast.Call):
-            f = core.norm(x.value.func)
-            if f.startswith('self.scope.') and core.norm(x.value.args[0]) == qn:
-              aug.add(f.split('.')[2])
+    for sname, conds in adds_by_set.items():
+      anyc = _fm2.FALSE
+      for cf in conds:
+        anyc = anyc | cf
+      if _fm2.implies(base & ~_fm2.atom('AUG'), anyc)[0] and _fm2.satisfiable(base):
+        uncond.add(sname)
+      elif _fm2.implies(base & _fm2.atom('AUG'), anyc)[0] and not _fm2.satisfiable(
+          base & ~_fm2.atom('AUG') & anyc):
+        aug.add(sname)
     return uncond, aug
 
   want = {'Store': ({'modified', 'bound'}, {'read'}),
           'Load': ({'read'}, set()),
           'Del': ({'deleted', 'bound', 'read'}, set())}
   for k, (w_un, w_aug) in want.items():
-    un, aug = sets_in(branches.get(k, []))
+    un, aug = sets_in(k)
     rep.check(w_un <= un and w_aug <= aug and not (un - w_un - {'annotations'}),
               'CTX-TABLE', '%s:%s' % (ts.site, k),
               'a symbol in %s context must be recorded in %s%s (found %s / under '
